@@ -2442,4 +2442,209 @@ theorem scanComment_gap {a b : St} (h : Live xA xB PR PRat a b) :
 
 end sim9
 
+/-- the outcome of one `Scan` in both runs: run A yielded no token or went beyond the first rune of `xA`
+    (only when the texts differ); or both yield the same token (or both none) and are still related -/
+def ScanOut (xA xB : List Rune) (PR PRat : PState → PState → Prop) (oa ob : Option (Kind × List Nat) × St) : Prop :=
+  (¬ Same xA xB ∧ (oa.1 = none ∨ Dead xA xB oa.2)) ∨ (oa.1 = ob.1 ∧ Live xA xB PR PRat oa.2 ob.2)
+
+section sim10
+variable {xA xB : List Rune} {PR PRat : PState → PState → Prop} (C : Ctx xA xB PR PRat)
+include C
+
+omit C in
+theorem fin_out (k : Kind) (ch0 : Int) (u : List Rune) {sa sb : St} (h : Rel xA xB PR PRat sa sb) :
+    ScanOut xA xB PR PRat (some (k, consumed ch0 (u ++ xA) sa.2.1 sa.1), sa)
+      (some (k, consumed ch0 (u ++ xB) sb.2.1 sb.1), sb) := by
+  rcases h with hl | hd
+  · exact Or.inr ⟨by rw [consumed_live ch0 u hl], hl⟩
+  · exact Or.inl ⟨hd.1, Or.inr hd⟩
+
+theorem dispatch_sim (recA recB : List Rune → Int → PState → Option (Kind × List Nat) × St)
+    (hrec : ∀ a b : St, Before xA xB PR a b → ScanOut xA xB PR PRat (recA a.2.1 a.1 a.2.2) (recB b.2.1 b.1 b.2.2))
+    (hcr : ∀ a : St, Crossed xA xB a → (recA a.2.1 a.1 a.2.2).1 = none ∨ Dead xA xB (recA a.2.1 a.1 a.2.2).2)
+    {a b : St} (h : Before xA xB PR a b) :
+    ScanOut xA xB PR PRat (dispatch recA a.1 a.2.1 a.2.2) (dispatch recB b.1 b.2.1 b.2.2) := by
+  obtain ⟨ca, ra, pa⟩ := a
+  obtain ⟨cb, rb, pb⟩ := b
+  have hc : ca = cb := h.1
+  subst hc
+  obtain ⟨u, hra, hrb⟩ := h.2.2
+  dsimp only at hra hrb ⊢
+  have hl1 := before_next C h
+  dsimp only at hl1
+  unfold dispatch
+  dsimp only
+  by_cases c1 : isIdentRune ca 0 = true
+  · simp only [c1, ↓reduceIte]
+    subst hra hrb
+    exact fin_out .ident ca u (scanIdentifier_sim C h)
+  simp only [c1, Bool.false_eq_true, ↓reduceIte]
+  by_cases c2 : isDecimal ca = true
+  · simp only [c2, ↓reduceIte]
+    have hn := scanNumber_sim C [] false false u h hra hrb
+    dsimp only at hn
+    generalize scanNumber [] ra ca pa false false = oa at hn ⊢
+    generalize scanNumber [] rb ca pb false false = ob at hn ⊢
+    obtain ⟨ka, sa⟩ := oa
+    obtain ⟨kb, sb⟩ := ob
+    dsimp only at hn ⊢
+    subst hra hrb
+    rcases hn with hd | ⟨hl, hk⟩
+    · exact Or.inl ⟨hd.1, Or.inr hd⟩
+    · subst hk; exact fin_out ka ca u (Or.inl hl)
+  simp only [c2, Bool.false_eq_true, ↓reduceIte]
+  have D := dead_srel xA xB
+  have hident : ∀ c, isIdentRune c 0 = true → ¬ StopCh c := fun c hc hs => by rw [stop_ident hs] at hc; cases hc
+  have hdec : ∀ c, isDecimal c = true → ¬ StopCh c := fun c hc hs => by rw [stop_decimal hs] at hc; cases hc
+  subst hra hrb
+  by_cases c3 : ca = 45
+  · subst c3
+    simp only [↓reduceIte]
+    generalize next (u ++ xA) pa = x at hl1 ⊢
+    generalize next (u ++ xB) pb = y at hl1 ⊢
+    obtain ⟨c, r, q⟩ := x
+    obtain ⟨c', r', q'⟩ := y
+    dsimp only
+    rcases live_test' C hl1 (fun c => isIdentRune c 0) hident with ⟨h3, h4⟩ | ⟨h3, h4, hbef⟩ | ⟨h3, h4, hat, hx⟩
+    · dsimp only at h3 h4
+      simp only [h3, h4, Bool.false_eq_true, ↓reduceIte]
+      rcases live_test' C hl1 (fun c => isDecimal c) hdec with ⟨h5, h6⟩ | ⟨h5, h6, hbef⟩ | ⟨h5, h6, hat, hx⟩
+      · dsimp only at h5 h6
+        simp only [h5, h6, Bool.false_eq_true, ↓reduceIte]
+        exact fin_out .ident 45 u (Or.inl hl1)
+      · dsimp only at h5 h6
+        simp only [h5, h6, ↓reduceIte]
+        obtain ⟨u', hr, hr'⟩ := hbef.2.2
+        have hn := scanNumber_sim C [45] false true u' hbef hr hr'
+        dsimp only at hn
+        generalize scanNumber [45] r c q false true = oa at hn ⊢
+        generalize scanNumber [45] r' c' q' false true = ob at hn ⊢
+        obtain ⟨ka, sa⟩ := oa
+        obtain ⟨kb, sb⟩ := ob
+        dsimp only at hn ⊢
+        rcases hn with hd | ⟨hl, hk⟩
+        · exact Or.inl ⟨hd.1, Or.inr hd⟩
+        · subst hk; exact fin_out ka 45 u (Or.inl hl)
+      · dsimp only at h5
+        simp only [h5, ↓reduceIte]
+        have hd := scanNumber_first_pop D [45] r c q false true h5 (at_next_dead hat hx)
+        generalize scanNumber [45] r c q false true = oa at hd ⊢
+        obtain ⟨ka, sa⟩ := oa
+        exact Or.inl ⟨hd.1, Or.inr hd⟩
+    · dsimp only at h3 h4
+      simp only [h3, h4, ↓reduceIte]
+      exact fin_out .ident 45 u (scanIdentifier_sim C hbef)
+    · dsimp only at h3
+      simp only [h3, ↓reduceIte]
+      have hd := scanIdentifier_pop D r q (at_next_dead hat hx)
+      exact Or.inl ⟨hd.1, Or.inr hd⟩
+  simp only [c3, ↓reduceIte]
+  by_cases c4 : ca < 0
+  · simp only [c4, ↓reduceIte]
+    exact Or.inr ⟨rfl, Or.inl h⟩
+  simp only [c4, ↓reduceIte]
+  by_cases c5 : ca = 34
+  · subst c5
+    simp only [↓reduceIte]
+    exact fin_out .string 34 u (strTok_sim C h)
+  simp only [c5, ↓reduceIte]
+  by_cases c6 : ca = 58
+  · subst c6
+    simp only [↓reduceIte]
+    exact fin_out .keyword 58 u (scanIdentifier_sim C h)
+  simp only [c6, ↓reduceIte]
+  by_cases c7 : ca = 46
+  · subst c7
+    simp only [↓reduceIte]
+    generalize next (u ++ xA) pa = x at hl1 ⊢
+    generalize next (u ++ xB) pb = y at hl1 ⊢
+    obtain ⟨c, r, q⟩ := x
+    obtain ⟨c', r', q'⟩ := y
+    dsimp only
+    rcases live_test' C hl1 (fun c => isDecimal c) hdec with ⟨h5, h6⟩ | ⟨h5, h6, hbef⟩ | ⟨h5, h6, hat, hx⟩
+    · dsimp only at h5 h6
+      simp only [h5, h6, Bool.false_eq_true, ↓reduceIte]
+      exact fin_out (.char 46) 46 u (Or.inl hl1)
+    · dsimp only at h5 h6
+      simp only [h5, h6, ↓reduceIte]
+      obtain ⟨u', hr, hr'⟩ := hbef.2.2
+      have hn := scanNumber_sim C [46] true false u' hbef hr hr'
+      dsimp only at hn
+      generalize scanNumber [46] r c q true false = oa at hn ⊢
+      generalize scanNumber [46] r' c' q' true false = ob at hn ⊢
+      obtain ⟨ka, sa⟩ := oa
+      obtain ⟨kb, sb⟩ := ob
+      dsimp only at hn ⊢
+      rcases hn with hd | ⟨hl, hk⟩
+      · exact Or.inl ⟨hd.1, Or.inr hd⟩
+      · subst hk; exact fin_out ka 46 u (Or.inl hl)
+    · dsimp only at h5
+      simp only [h5, ↓reduceIte]
+      have hd := scanNumber_first_pop D [46] r c q true false h5 (at_next_dead hat hx)
+      generalize scanNumber [46] r c q true false = oa at hd ⊢
+      obtain ⟨ka, sa⟩ := oa
+      exact Or.inl ⟨hd.1, Or.inr hd⟩
+  simp only [c7, ↓reduceIte]
+  by_cases c8 : ca = 59
+  · subst c8
+    simp only [↓reduceIte]
+    have hg := scanComment_gap C hl1
+    generalize next (u ++ xA) pa = x at hg ⊢
+    generalize next (u ++ xB) pb = y at hg ⊢
+    obtain ⟨c, r, q⟩ := x
+    obtain ⟨c', r', q'⟩ := y
+    dsimp only at hg ⊢
+    generalize scanComment r c q = x2 at hg ⊢
+    generalize scanComment r' c' q' = y2 at hg ⊢
+    obtain ⟨c2, r2, q2⟩ := x2
+    obtain ⟨c2', r2', q2'⟩ := y2
+    dsimp only
+    rcases hg with hb2 | hcx
+    · exact hrec _ _ hb2
+    · exact Or.inl ⟨hcx.1, hcr _ hcx⟩
+  simp only [c8, ↓reduceIte]
+  by_cases c9 : ca = 172
+  · subst c9
+    simp only [↓reduceIte]
+    exact fin_out .rawString 172 u (scanRawString_sim C h)
+  simp only [c9, ↓reduceIte]
+  have hpop2 : ∀ (k1 k2 : Kind) (ch0 : Int) (t : Int) (ht : ¬ StopCh t),
+      ScanOut xA xB PR PRat
+        (match next (u ++ xA) pa with
+          | (c, r, q) =>
+            if c = t then (some (k1, consumed ch0 (u ++ xA) (next r q).2.1 (next r q).1), next r q)
+            else (some (k2, consumed ch0 (u ++ xA) r c), c, r, q))
+        (match next (u ++ xB) pb with
+          | (c, r, q) =>
+            if c = t then (some (k1, consumed ch0 (u ++ xB) (next r q).2.1 (next r q).1), next r q)
+            else (some (k2, consumed ch0 (u ++ xB) r c), c, r, q)) := by
+    intro k1 k2 ch0 t ht
+    generalize next (u ++ xA) pa = x at hl1 ⊢
+    generalize next (u ++ xB) pb = y at hl1 ⊢
+    obtain ⟨c, r, q⟩ := x
+    obtain ⟨c', r', q'⟩ := y
+    dsimp only
+    rcases live_test' C hl1 (fun c => decide (c = t)) (eq_stop_false t ht) with
+      ⟨h5, h6⟩ | ⟨h5, h6, hbef⟩ | ⟨h5, h6, hat, hx⟩
+    · rw [if_neg (of_decide_eq_false h5), if_neg (of_decide_eq_false h6)]
+      exact fin_out k2 ch0 u (Or.inl hl1)
+    · rw [if_pos (of_decide_eq_true h5), if_pos (of_decide_eq_true h6)]
+      exact fin_out k1 ch0 u (Or.inl (before_next C hbef))
+    · rw [if_pos (of_decide_eq_true h5)]
+      have hd := at_next_dead hat hx
+      exact Or.inl ⟨hd.1, Or.inr hd⟩
+  by_cases c10 : ca = 126
+  · subst c10
+    simp only [↓reduceIte]
+    exact hpop2 .ident (.char 126) 126 64 (by decide)
+  simp only [c10, ↓reduceIte]
+  by_cases c11 : ca = 35
+  · subst c11
+    simp only [↓reduceIte]
+    exact hpop2 .ident (.char 35) 35 123 (by decide)
+  simp only [c11, ↓reduceIte]
+  exact fin_out (.char ca.toNat) ca u (Or.inl hl1)
+
+end sim10
+
 end LispModel.Proofs.LayoutFull
